@@ -92,6 +92,18 @@ Pick == \E i \in Pick1((NLeaves + 1)..N) :
          /\ "pickle" \in Ops /\ Uses({i})
          /\ Push(pool[i], [act |-> "pickle", i |-> i])
 
+(* m[loc] = handle; handle' = m[loc], optionally after a pickle round trip of the whole map (pk = 1):
+   storing an expression in a map and reading it back gives an expression that means the same, and
+   leaves the stored one (and every other handle) alone *)
+MapW == \E i \in Pick1(All), pk \in {0, 1} :
+         /\ "mapw" \in Ops /\ Uses({i})
+         /\ Push(pool[i], [act |-> "mapw", i |-> i, pk |-> pk])
+
+(* evaluation in a symbolic environment: register a is bound to handle j, handle i is evaluated *)
+Subst == \E i \in Pick1(All) : \E j \in Pick1({k \in All : pool[k] = W}) :
+         /\ "subst" \in Ops /\ Uses({i, j})
+         /\ Push(pool[i], [act |-> "subst", i |-> i, j |-> j])
+
 (* a complete behaviour is printed exactly once, by its own (single) successor step: in simulation
    mode TLC evaluates constraints on every candidate successor, an action prints only for the one taken *)
 Done == /\ Steps = MaxSteps /\ ~emitted
@@ -99,7 +111,7 @@ Done == /\ Steps = MaxSteps /\ ~emitted
         /\ emitted' = TRUE /\ UNCHANGED <<W, pool, h>>
 
 Next == \/ /\ Steps < MaxSteps
-           /\ (Bin \/ Un \/ Slice \/ Compose \/ Cond \/ Ext \/ Simp \/ Pick)
+           /\ (Bin \/ Un \/ Slice \/ Compose \/ Cond \/ Ext \/ Simp \/ Pick \/ MapW \/ Subst)
         \/ Done
 
 Spec == Init /\ [][Next]_vars
